@@ -26,6 +26,9 @@ import (
 
 	"github.com/chrislusf/seaweedfs/weed/filer"
 	"github.com/chrislusf/seaweedfs/weed/filesys"
+	"github.com/chrislusf/seaweedfs/weed/filesys/meta_cache"
+	"github.com/chrislusf/seaweedfs/weed/util"
+	"github.com/golang/protobuf/proto"
 	"github.com/chrislusf/seaweedfs/weed/pb/filer_pb"
 	"github.com/seaweedfs/fuse"
 	"google.golang.org/grpc"
@@ -41,6 +44,45 @@ type stubT struct {
 	next     uint64
 	httpAddr string
 	grpcAddr string
+
+	// gate: while held, chunk uploads (POST) block before they are stored
+	gateMu   sync.Mutex
+	gateCond *sync.Cond
+	held     bool
+	waiting  int
+
+	// the entry of the last CreateEntry request (FileHandle.Flush)
+	created *filer_pb.Entry
+}
+
+func (s *stubT) hold() {
+	s.gateMu.Lock()
+	s.held = true
+	s.gateMu.Unlock()
+}
+
+func (s *stubT) release() {
+	s.gateMu.Lock()
+	s.held = false
+	s.gateCond.Broadcast()
+	s.gateMu.Unlock()
+}
+
+func (s *stubT) passGate() {
+	s.gateMu.Lock()
+	s.waiting++
+	for s.held {
+		s.gateCond.Wait()
+	}
+	s.waiting--
+	s.gateMu.Unlock()
+}
+
+func (s *stubT) CreateEntry(ctx context.Context, req *filer_pb.CreateEntryRequest) (*filer_pb.CreateEntryResponse, error) {
+	s.mu.Lock()
+	s.created = proto.Clone(req.Entry).(*filer_pb.Entry)
+	s.mu.Unlock()
+	return &filer_pb.CreateEntryResponse{}, nil
 }
 
 var stub = &stubT{store: map[string][]byte{}}
@@ -89,6 +131,7 @@ func (s *stubT) ServeHTTP(w http.ResponseWriter, r *http.Request) {
 				return
 			}
 		}
+		s.passGate()
 		s.mu.Lock()
 		s.store[fid] = data
 		s.mu.Unlock()
@@ -116,6 +159,7 @@ func (s *stubT) get(fid string) []byte {
 }
 
 func startStubs() {
+	stub.gateCond = sync.NewCond(&stub.gateMu)
 	srv := httptest.NewServer(stub)
 	stub.httpAddr = strings.TrimPrefix(srv.URL, "http://")
 	lis, err := net.Listen("tcp", "127.0.0.1:0")
@@ -133,6 +177,7 @@ const (
 	opTrunc
 	opFlush
 	opRead
+	opWriteRead // Write, then a Read issued while the chunk uploads started by the Write are held back
 )
 
 type op struct {
@@ -140,6 +185,8 @@ type op struct {
 	off  int64
 	data []byte
 	n    int64 // truncate size / read length
+	roff int64 // opWriteRead: read offset
+	real bool  // opFlush: the real FileHandle.Flush (doFlush + CreateEntry) instead of DirtyPages.FlushData
 }
 
 func (o op) coq() string {
@@ -149,7 +196,12 @@ func (o op) coq() string {
 	case opTrunc:
 		return "T " + b1(o.n)
 	case opFlush:
+		if o.real {
+			return "FC"
+		}
 		return "F"
+	case opWriteRead:
+		return "WR " + b1(o.off) + " " + coqBytes(o.data) + " " + b1(o.roff) + " " + b1(o.n)
 	default:
 		return "R " + b1(o.off) + " " + b1(o.n)
 	}
@@ -162,7 +214,12 @@ func (o op) canon() string {
 	case opTrunc:
 		return fmt.Sprintf("T%d", o.n)
 	case opFlush:
+		if o.real {
+			return "F!"
+		}
 		return "F"
+	case opWriteRead:
+		return fmt.Sprintf("W%d:%x~R%d+%d", o.off, o.data, o.roff, o.n)
 	default:
 		return fmt.Sprintf("R%d+%d", o.off, o.n)
 	}
@@ -262,7 +319,11 @@ func resolve(entry *filer_pb.Entry) []byte {
 type runInfo struct {
 	saves, reads, readBytes int
 	mtimeTies               int
+	realFlush, inflightSave int
 }
+
+var sharedMetaCache *meta_cache.MetaCache
+var sharedMapper *meta_cache.UidGidMapper
 
 // runHistory executes one history on a fresh file and returns one Coq obs term per op.
 func runHistory(temp bool, limit int64, ops []op, info *runInfo) []string {
@@ -271,8 +332,10 @@ func runHistory(temp bool, limit int64, ops []op, info *runInfo) []string {
 		FilerGrpcAddresses: []string{stub.grpcAddr},
 		GrpcDialOption:     grpc.WithInsecure(),
 		ChunkSizeLimit:     limit,
+		UidGidMapper:       sharedMapper,
 	}
 	f := filesys.VerifC30NewFile("f", option, 0)
+	filesys.VerifC30SetMetaCache(f, sharedMetaCache)
 	fh := filesys.VerifC30NewHandle(f, temp, false)
 	pages := filesys.VerifC30DirtyPages(fh)
 	entry := filesys.VerifC30Entry(f)
@@ -295,13 +358,37 @@ func runHistory(temp bool, limit int64, ops []op, info *runInfo) []string {
 		return out
 	}
 	var obs []string
+	attr := func() string { return " " + b1(int64(entry.Attributes.FileSize)) }
+	doRead := func(o op, off int64) string {
+		dbuf := make([]byte, o.n)
+		ms := filesys.VerifC30ReadFromDirtyPages(fh, dbuf, off)
+		resp := &fuse.ReadResponse{Data: make([]byte, 0, o.n)}
+		hx.Must(fh.Read(ctx, &fuse.ReadRequest{Offset: off, Size: int(o.n)}, resp))
+		info.reads++
+		info.readBytes += len(resp.Data)
+		// the dirty-layer buffer is printed without its trailing zeros (check/C30.v pads it back)
+		return coqBytes(bytes.TrimRight(dbuf, "\x00")) + " " + b1(ms) + " " + coqBytes(resp.Data)
+	}
 	for _, o := range ops {
 		switch o.kind {
 		case opWrite:
 			resp := &fuse.WriteResponse{}
 			hx.Must(fh.Write(ctx, &fuse.WriteRequest{Offset: o.off, Data: append([]byte(nil), o.data...)}, resp))
 			filesys.VerifC30Wait(pages)
-			obs = append(obs, "OW "+coqLists(filesys.VerifC30Lists(pages))+" "+coqSaved(newSaved()))
+			obs = append(obs, "OW "+coqLists(filesys.VerifC30Lists(pages))+" "+coqSaved(newSaved())+attr())
+		case opWriteRead:
+			// the uploads started by this Write are held at the volume server until the Read has returned
+			stub.hold()
+			resp := &fuse.WriteResponse{}
+			hx.Must(fh.Write(ctx, &fuse.WriteRequest{Offset: o.off, Data: append([]byte(nil), o.data...)}, resp))
+			rd := doRead(o, o.roff)
+			stub.release()
+			filesys.VerifC30Wait(pages)
+			sv := newSaved()
+			if len(sv) > 0 {
+				info.inflightSave++
+			}
+			obs = append(obs, "OWR "+coqLists(filesys.VerifC30Lists(pages))+" "+coqSaved(sv)+" "+rd+attr())
 		case opTrunc:
 			hx.Must(f.Setattr(ctx, &fuse.SetattrRequest{Valid: fuse.SetattrSize, Size: uint64(o.n)}, &fuse.SetattrResponse{}))
 			var ps [][2]int64
@@ -310,18 +397,40 @@ func runHistory(temp bool, limit int64, ops []op, info *runInfo) []string {
 			}
 			obs = append(obs, "OT "+zpairs(ps)+" "+b1(int64(entry.Attributes.FileSize)))
 		case opFlush:
-			hx.Must(pages.FlushData())
-			saved := newSaved()
-			obs = append(obs, "OF "+coqLists(filesys.VerifC30Lists(pages))+" "+coqSaved(saved)+" "+coqBytes(resolve(entry)))
+			if o.real {
+				// the real FileHandle.Flush closes the history: FlushData, SeparateManifestChunks, CompactFileChunks,
+				// MaybeManifestize, CreateEntry.  FlushData is idempotent, so it is run first to read the saved chunks
+				// off the entry before doFlush compacts it (doFlush repeats it with nothing left to save).
+				hx.Must(pages.FlushData())
+				saved := newSaved()
+				content := resolve(entry)
+				lists := filesys.VerifC30Lists(pages)
+				stub.mu.Lock()
+				stub.created = nil
+				stub.mu.Unlock()
+				wasDirty := filesys.VerifC30DirtyMetadata(f)
+				hx.Must(fh.Flush(ctx, &fuse.FlushRequest{}))
+				stub.mu.Lock()
+				created := stub.created
+				stub.mu.Unlock()
+				if created == nil {
+					if wasDirty {
+						panic("c30 harness: FileHandle.Flush with dirty metadata sent no CreateEntry")
+					}
+					created = entry // nothing was written or truncated: doFlush returns before CreateEntry
+				}
+				if filesys.VerifC30DirtyMetadata(f) || filesys.VerifC30TempFileOpen(pages) {
+					panic("c30 harness: FileHandle.Flush left dirty metadata or an open temp file")
+				}
+				info.realFlush++
+				obs = append(obs, "OFC "+coqLists(lists)+" "+coqSaved(saved)+" "+coqBytes(content)+" "+coqBytes(resolve(created))+attr())
+			} else {
+				hx.Must(pages.FlushData())
+				saved := newSaved()
+				obs = append(obs, "OF "+coqLists(filesys.VerifC30Lists(pages))+" "+coqSaved(saved)+" "+coqBytes(resolve(entry))+attr())
+			}
 		case opRead:
-			dbuf := make([]byte, o.n)
-			ms := filesys.VerifC30ReadFromDirtyPages(fh, dbuf, o.off)
-			resp := &fuse.ReadResponse{Data: make([]byte, 0, o.n)}
-			hx.Must(fh.Read(ctx, &fuse.ReadRequest{Offset: o.off, Size: int(o.n)}, resp))
-			// the dirty-layer buffer is printed without its trailing zeros (check/C30.v pads it back)
-			obs = append(obs, "OR "+coqBytes(bytes.TrimRight(dbuf, "\x00"))+" "+b1(ms)+" "+coqBytes(resp.Data))
-			info.reads++
-			info.readBytes += len(resp.Data)
+			obs = append(obs, "OR "+doRead(o, o.off)+attr())
 		}
 	}
 	return obs
@@ -372,7 +481,11 @@ func witnesses() []caseT {
 	w := func(off int64, tag, n int) op { return op{kind: opWrite, off: off, data: mkData(tag, n)} }
 	t := func(n int64) op { return op{kind: opTrunc, n: n} }
 	fl := op{kind: opFlush}
+	flr := op{kind: opFlush, real: true}
 	rd := func(off, n int64) op { return op{kind: opRead, off: off, n: n} }
+	wr := func(off int64, tag, n int, roff, rn int64) op {
+		return op{kind: opWriteRead, off: off, data: mkData(tag, n), roff: roff, n: rn}
+	}
 	return []caseT{
 		// k=0: shrinking truncate while pages are dirty
 		{false, 16, []history{{[]op{w(0, 1, 4), w(8, 2, 4), t(8), fl}}}, "witness-dirty-shrink-mem"},
@@ -384,6 +497,18 @@ func witnesses() []caseT {
 		// k=1: the handle's visible-interval cache is never refreshed
 		{false, 16, []history{{[]op{w(0, 1, 4), fl, rd(0, 8), w(0, 2, 4), fl, rd(0, 8)}}}, "witness-stale-view"},
 		{true, 16, []history{{[]op{w(0, 1, 4), fl, rd(0, 8), w(0, 2, 4), fl, rd(0, 8)}}}, "witness-stale-view-temp"},
+		// k=2: a Read while the save started by the previous Write is in flight (in-memory buffer only)
+		{false, 4, []history{{[]op{wr(0, 1, 4, 0, 4)}}}, "witness-inflight-read"},
+		{false, 8, []history{{[]op{w(0, 1, 4), fl, wr(2, 2, 9, 0, 12), rd(0, 12), flr}}}, "witness-inflight-read-overwrite"},
+		// the temp-file buffer saves only inside FlushData: the same histories are POSIX there
+		{true, 4, []history{{[]op{wr(0, 1, 4, 0, 4)}}}, "inflight-read-temp"},
+		{true, 8, []history{{[]op{w(0, 1, 4), fl, wr(2, 2, 9, 0, 12), rd(0, 12), flr}}}, "inflight-read-overwrite-temp"},
+		// the real FileHandle.Flush with overwritten chunks (CompactFileChunks drops the covered one)
+		{false, 16, []history{{[]op{w(0, 1, 4), fl, w(0, 2, 8), fl, w(2, 3, 2), flr}}}, "real-flush-compacts"},
+		{true, 16, []history{{[]op{w(0, 1, 4), fl, w(0, 2, 8), fl, w(2, 3, 2), flr}}}, "real-flush-compacts-temp"},
+		// a zero-length write (outside the theorems' domain; the model must still agree)
+		{false, 16, []history{{[]op{w(0, 1, 4), w(2, 2, 0), w(9, 2, 0), rd(0, 12), fl}}}, "zero-length-write"},
+		{true, 16, []history{{[]op{w(0, 1, 4), w(2, 2, 0), w(9, 2, 0), rd(0, 12), fl}}}, "zero-length-write-temp"},
 	}
 }
 
@@ -409,12 +534,43 @@ func exhCase(temp bool, limit int64, prefixLen int, prefixIdx int) caseT {
 	return caseT{temp, limit, hs, fmt.Sprintf("exh-len%d", prefixLen+1)}
 }
 
+// exhaustive truncates: one Trunc n (n in 0..8) at every position of a two-write history; the first write
+// ranges over offsets 0..7 x sizes {2,4} (dirty / saved at limit 4), the batch over the 32 second writes.
+//
+//	pos 0: T n, W2        pos 1: W1, T n, W2        pos 2: W1, W2, T n        pos 3: W1, Flush, T n, W2
+//
+// each followed by Read [0,11) and Flush.
+func exhTruncCase(temp bool, limit int64, pos int, idx int) caseT {
+	n := int64(idx % 9)
+	w1i := idx / 9 // 0..15
+	w1 := op{kind: opWrite, off: int64(w1i / 2), data: mkData(1, 2+2*(w1i%2))}
+	tr := op{kind: opTrunc, n: n}
+	var hs []history
+	for last := 0; last < 32; last++ {
+		w2 := exhWrite(last, 2)
+		var ops []op
+		switch pos {
+		case 0:
+			ops = []op{tr, w2}
+		case 1:
+			ops = []op{w1, tr, w2}
+		case 2:
+			ops = []op{w1, w2, tr}
+		default:
+			ops = []op{w1, {kind: opFlush}, tr, w2}
+		}
+		ops = append(ops, op{kind: opRead, off: 0, n: 11}, op{kind: opFlush})
+		hs = append(hs, history{ops})
+	}
+	return caseT{temp, limit, hs, fmt.Sprintf("exh-trunc-pos%d", pos)}
+}
+
 // exhIndex maps a global index to an exhaustive case; total is the size of the space.
 func exhSpace(thorough bool) (total int, at func(i int) caseT) {
 	type block struct {
 		temp  bool
 		limit int64
-		plen  int
+		plen  int // >= 0: writes only, prefix length; -1-pos: the truncate block of position pos
 		n     int
 	}
 	var blocks []block
@@ -422,6 +578,9 @@ func exhSpace(thorough bool) (total int, at func(i int) caseT) {
 		for _, lim := range []int64{4, 3, 2} {
 			blocks = append(blocks, block{temp, lim, 0, 1}, block{temp, lim, 1, 32})
 		}
+	}
+	for _, temp := range []bool{false, true} {
+		blocks = append(blocks, block{temp, 4, -1, 9}, block{temp, 4, -2, 144}, block{temp, 4, -3, 144}, block{temp, 4, -4, 144})
 	}
 	for _, temp := range []bool{false, true} {
 		blocks = append(blocks, block{temp, 4, 2, 1024})
@@ -438,6 +597,9 @@ func exhSpace(thorough bool) (total int, at func(i int) caseT) {
 		i %= total
 		for _, b := range blocks {
 			if i < b.n {
+				if b.plen < 0 {
+					return exhTruncCase(b.temp, b.limit, -1-b.plen, i)
+				}
 				return exhCase(b.temp, b.limit, b.plen, i)
 			}
 			i -= b.n
@@ -470,13 +632,27 @@ func randCase(r *hx.Rng, out *hx.Out) caseT {
 				}
 			}
 			n := r.Range(1, 12)
+			if r.Chance(1, 40) {
+				n = 0 // zero-length write: outside the theorems' domain, the model must still agree
+				out.Count("op:write-empty", 1)
+			}
 			var data []byte
 			if r.Chance(1, 8) {
 				data = []byte(strings.Repeat(string(rune('a'+tag%26)), n)) // text: takes the gzip upload path
 			} else {
 				data = mkData(tag, n)
 			}
-			ops = append(ops, op{kind: opWrite, off: off, data: data})
+			if profile >= 2 && r.Chance(1, 5) {
+				// a Read issued while the saves started by this Write are still in flight
+				roff := off - int64(r.Intn(6))
+				if roff < 0 || r.Chance(1, 4) {
+					roff = int64(r.Range(0, 70))
+				}
+				ops = append(ops, op{kind: opWriteRead, off: off, data: data, roff: roff, n: int64(r.Range(1, 24))})
+				out.Count("op:write+inflight-read", 1)
+			} else {
+				ops = append(ops, op{kind: opWrite, off: off, data: data})
+			}
 			if off+int64(n) > size {
 				size = off + int64(n)
 			}
@@ -510,6 +686,12 @@ func randCase(r *hx.Rng, out *hx.Out) caseT {
 	for j := r.Range(1, 3); j > 0; j-- {
 		ops = append(ops, op{kind: opRead, off: int64(r.Range(0, 40)), n: int64(r.Range(1, 80))})
 	}
+	// the history is closed by the real FileHandle.Flush (doFlush + CreateEntry), sometimes with pages still dirty
+	if r.Chance(1, 2) {
+		tag++
+		ops = append(ops, op{kind: opWrite, off: int64(r.Range(0, 64)), data: mkData(tag, r.Range(1, 12))})
+	}
+	ops = append(ops, op{kind: opFlush, real: true})
 	return caseT{temp, limit, []history{{ops}}, fmt.Sprintf("rand-p%d", profile)}
 }
 
@@ -519,10 +701,18 @@ func main() {
 	out := hx.Flags("C30", 200)
 	flag.Set("logtostderr", "true")
 	startStubs()
+	var err error
+	sharedMapper, err = meta_cache.NewUidGidMapper("", "")
+	hx.Must(err)
+	mcDir, err := ioutil.TempDir("", "c30-meta")
+	hx.Must(err)
+	sharedMetaCache = meta_cache.NewMetaCache(mcDir, util.FullPath("/"), sharedMapper, func(util.FullPath) {})
 	out.Rule = "histories of Write/Truncate/Flush/Read on a fresh mounted file handle, in-memory and temp-file dirty pages; " +
 		"mode exh: every sequence of <=3 writes (thorough <=4) over offsets 0..7 x sizes 1..4 with chunk limit 4 (and <=2 writes with limits 2,3), each followed by Read [0,12) and Flush (a case = one prefix x the 32 last writes); " +
 		"mode rand: first the fixed witnesses of the known findings and of the repaired Setattr defect, then random histories of 5-40 ops (offsets 0..64, sizes 1..12, chunk limit 8/16 or unlimited), profiles: buffer-only / no shrinking truncate and reads at the end / everything; " +
 		"observed: interval lists (offset,size per node) after each write/flush, chunks saved by each op in save order, chunk list after truncate, dirty-layer read bytes+maxStop, FileHandle.Read bytes, file content resolved from the chunks by filer.NonOverlappingVisibleIntervals after every flush; " +
+		"also: WriteRead ops (a Read issued while the uploads started by the Write are held at the stub volume server; 1/5 of the writes of profiles 2,3), zero-length writes (1/40), entry.Attributes.FileSize after every op, every random history closed by the real FileHandle.Flush (the entry received by the stub filer's CreateEntry is resolved); " +
+		"mode exh also: one Trunc n (n in 0..8) before / between / after two writes and after a flush (first write offsets 0..7 x sizes 2,4; all 32 second writes); " +
 		"non-trivial = at least one chunk saved and one non-empty read; distinct = canonical op lists"
 	var cases []caseT
 	if *mode == "exh" {
@@ -577,5 +767,7 @@ func main() {
 	out.Count("chunks-saved", info.saves)
 	out.Count("reads", info.reads)
 	out.Count("mtime-ties", info.mtimeTies)
+	out.Count("real-flushes", info.realFlush)
+	out.Count("inflight-reads-with-save", info.inflightSave)
 	out.Write()
 }
